@@ -50,10 +50,13 @@ def placements(prog, rng, val):
                 p['nodes'][n].setdefault('plan', {})['ret'] = ['lit', lit]
                 yield (f'ret:{n}:{lit!r}', retag(p), {})
         if node.get('kind') == 'decider':
-            p = copy.deepcopy(prog)
-            p['nodes'][n]['plan']['labels'] = list(p['nodes'][n]['plan']['labels']) + ['ZZZ']
-            p['nodes'][n]['plan']['label_by_input'] = {str(val): 'ZZZ'}
-            yield (f'unknown_label:{n}', retag(p), {})
+            for unknown in ('ZZZ', None, 0, ''):
+                if unknown in node['plan']['labels']:
+                    continue
+                p = copy.deepcopy(prog)
+                p['nodes'][n]['plan']['labels'] = list(p['nodes'][n]['plan']['labels']) + ['ZZZ']
+                p['nodes'][n]['plan']['label_by_input'] = {str(val): unknown}
+                yield (f'unknown_label:{n}:{unknown!r}', retag(p), {})
 
 
 def work_c02(prop, tier, seed, widx, nworkers):
